@@ -4,13 +4,21 @@
 #[allow(dead_code, unused_imports, clippy::all, clippy::pedantic, clippy::nursery)]
 pub mod verif_access {
     use super::*;
+    /// a table with the given content; built through the real constructor and field assignments (no struct literal), so that
+    /// fields added by a refactoring keep whatever `new` gives them
     pub fn from_parts<T: Clone + TTOverwriteable>(
         data: Vec<Option<TranspositionTableEntry<T>>>,
         generation: u8,
         occupied: usize,
         size: usize,
     ) -> TranspositionTable<T> {
-        TranspositionTable { data, generation, occupied, size }
+        let mut tt = TranspositionTable::<T>::new(0);
+        let old = core::mem::replace(&mut tt.data, data);
+        core::mem::forget(old);
+        tt.generation = generation;
+        tt.occupied = occupied;
+        tt.size = size;
+        tt
     }
     pub fn slot<T: Clone + TTOverwriteable>(tt: &TranspositionTable<T>, i: usize) -> &Option<TranspositionTableEntry<T>> {
         &tt.data[i]
